@@ -138,8 +138,20 @@ def render_tree(m: LifeModel, inject: T.Optional[dict]) -> T.Dict[str, str]:
             'subprojects/sp/meson.build': ''.join(sp), 'subprojects/sp/meson.options': spopt}
 
 
+DELETE_EMPTY_OPTION_FILES = False     # set per history (case['delete_empty']): an option file left without options is deleted
+
+
 def write_src(src: str, files: T.Dict[str, str], cache: T.Dict[str, str]) -> None:
     for rel, text in files.items():
+        if DELETE_EMPTY_OPTION_FILES and rel.endswith('meson.options') and text == '# no options\n':
+            # the project's last option was removed by deleting the file: "a removed one vanishes" all the same
+            if cache.get(rel) is not None or os.path.exists(os.path.join(src, rel)):
+                try:
+                    os.unlink(os.path.join(src, rel))
+                except FileNotFoundError:
+                    pass
+            cache[rel] = None       # type: ignore[assignment]
+            continue
         if cache.get(rel) == text:
             continue
         path = os.path.join(src, rel)
@@ -537,6 +549,8 @@ def run_history(case: dict, runner: T.Callable[..., T.Any], root: str) -> Outcom
     os.makedirs(src)
     m = LifeModel(case['init'])
     cache: T.Dict[str, str] = {}
+    global DELETE_EMPTY_OPTION_FILES
+    DELETE_EMPTY_OPTION_FILES = bool(case.get('delete_empty'))
     write_src(src, render_tree(m, None), cache)
     trace = res.trace
 
@@ -1020,7 +1034,7 @@ def _strategies() -> T.Any:
                     push({'op': 'configure', 'D': [['optimization', draw(st.sampled_from(['1', 'g']))]]})
                 push({'op': 'wipe'})
                 push({'op': 'introspect'})
-        return {'init': init, 'ops': ops, 'strict': True}
+        return {'init': init, 'ops': ops, 'strict': True, 'delete_empty': draw(st.booleans())}
 
     return histories()
 
